@@ -334,3 +334,77 @@ func runCrossCtx(c *Ctx) {
 		checkCrossCtx(c, genCrossCase(c, it))
 	}
 }
+
+// ---- Mapper / MapperLookupCache ---------------------------------------------------------------------
+//
+// A zngio scanner worker keeps one MapperLookupCache and Resets it to the next stream's Mapper at
+// every end-of-stream; the next stream binds the local ids anew.  After Reset(m) the cache must
+// answer exactly like m, whatever was looked up before (higher ids first, ids the new mapper
+// does not bind).
+
+type mapperCase struct {
+	Check   string  `json:"check"`
+	Streams [][]int `json:"streams"` // per stream: for local id 30+i the index of the type bound to it
+	Lookups [][]int `json:"lookups"` // per stream: local ids looked up through the cache, in order
+}
+
+func genMapperCase(c *Ctx) *mapperCase {
+	r := c.Rng
+	mc := &mapperCase{Check: "mapper"}
+	for s, n := 0, 2+r.Intn(3); s < n; s++ {
+		var binds, looks []int
+		for i, m := 0, 1+r.Intn(6); i < m; i++ {
+			binds = append(binds, r.Intn(8))
+		}
+		for i, m := 0, 1+r.Intn(10); i < m; i++ {
+			looks = append(looks, zed.IDTypeComplex+r.Intn(8))
+		}
+		// a high id first
+		looks = append([]int{zed.IDTypeComplex + len(binds) - 1}, looks...)
+		mc.Streams = append(mc.Streams, binds)
+		mc.Lookups = append(mc.Lookups, looks)
+	}
+	return mc
+}
+
+func checkMapper(c *Ctx, mc *mapperCase) {
+	c.Eval(fmt.Sprintf("mapper:%v:%v", mc.Streams, mc.Lookups))
+	c.Stat(fmt.Sprintf("mapper:streams:%d", len(mc.Streams)))
+	e, _ := Protect(func() error {
+		out := zed.NewContext()
+		comps := complexComponents()
+		var pool []zed.Type
+		for _, s := range comps[:8] {
+			t, err := s.Build(out)
+			if err != nil {
+				return nil
+			}
+			pool = append(pool, t)
+		}
+		var cache zed.MapperLookupCache
+		for s, binds := range mc.Streams {
+			m := zed.NewMapper(out)
+			for i, ti := range binds {
+				m.EnterType(zed.IDTypeComplex+i, pool[ti%len(pool)])
+			}
+			cache.Reset(m)
+			for _, id := range mc.Lookups[s] {
+				got, want := cache.Lookup(id), m.Lookup(id)
+				if got != want {
+					c.Fail("oracle", "C05:mapper:stale-cache", fmt.Sprintf("stream %d: after Reset the cache maps local id %d to %s, the stream's mapper to %s", s, id, DescrType(got), DescrType(want)), mc)
+					return nil
+				}
+			}
+		}
+		return nil
+	})
+	if e != nil {
+		c.Fail("panic", "C05:mapper:panic", e.Error(), mc)
+	}
+}
+
+func runMapper(c *Ctx) {
+	for it, n := 0, c.N(200, 3000); it < n; it++ {
+		checkMapper(c, genMapperCase(c))
+	}
+}
